@@ -61,7 +61,8 @@ def inline_locals(e, defs: Defs, depth=0, keep: Set[str] = frozenset()):
 
 def _copy(e):
     import copy
-    c = copy.deepcopy(e)
+    from .model import clone as _clone
+    c = _clone(e)
     return c
 
 
